@@ -938,3 +938,8 @@ package mail
 // RFC 2047 word encoder (the Msg's)
 //@ at mail.Msg.signMessage mail.msgWriter.writeMsg#1 before assert[C08:same-encoder-in-both-renders] mw.encoder == m.encoder && mw.charset == m.charset
 //@ at mail.Msg.WriteTo mail.msgWriter.writeMsg#1 before assert[C08:same-encoder-in-both-renders] mw.encoder == m.encoder && mw.charset == m.charset
+
+// C18 (continued): what is written is the builder's content with ONE pass of the trailing-blank clean-up - the
+// pass removes exactly the separator blank in front of each fold (the fold brings its own), so the field unfolds
+// to the value; a second pass would eat blanks that belong to the value
+//@ at mail.msgWriter.writeHeader mail.msgWriter.writeString#1 before assert[C18:one-cleanup-pass] arg1 == replall(buffer.bcontent, " " + "\r\n", "\r\n")
